@@ -57,7 +57,8 @@ def run(chk, prog):
             continue
         ctx = ctx_of(prog, b.path)
         chk.analysed_body(b)
-        for bb, t in b.calls():
+        ordinal = 0
+        for bb, t in sorted(b.calls(), key=lambda x: (x[1].sp["l"], x[1].sp.get("c", 0))):
             is_io = t.is_call_to(*IOW)
             is_compact = (t.callee or "").startswith("serde_json::ser::Formatter::") and t.self_adt == "serde_json::ser::CompactFormatter"
             if t.self_adt == "serde_json::ser::PrettyFormatter":
@@ -67,11 +68,23 @@ def run(chk, prog):
             w = t.args[0] if is_io else t.args[1]
             og = deep_origins(ctx, w, 5, stop=lambda o: is_call(o, WRITER))
             via = any(is_call(o, WRITER) for o in og)
-            direct = [o for o in og if o.kind in ("param", "upvar") and o.key[1] in ("writer", "_writer")]
+            direct = [o for o in og if o.kind == "param" and o.key[1] in ("writer", "_writer")]
+            # a captured variable is what the enclosing function put into it
+            for o in og:
+                if o.kind == "upvar":
+                    pctx, src = upvar_source(prog, ctx, o.key[0])
+                    deep = set()
+                    for x in src:
+                        deep |= deep_origins(pctx, x.extra.args[0], 5, stop=lambda y: is_call(y, WRITER)) | {x} \
+                            if (x.kind == "call" and not is_call(x, WRITER) and x.extra is not None and x.extra.args) else {x}
+                    if any(is_call(x, WRITER) for x in deep):
+                        via = True
+                    direct += [x for x in deep if x.kind in ("param", "upvar") and x.key[1] in ("writer", "_writer")]
             n_w += 1
+            ordinal += 1
             inside_writer_fn = root_fn(b.path) == WRITER
             chk.require(inside_writer_fn or (via and not direct) or _end_object_writer(ctx, og), "R2", short_fn(b.path),
-                        "writes-through-current-buffer@L%d" % t.sp["l"],
+                        "writes-through-current-buffer#%d" % ordinal,
                         "bytes are written to %s instead of self.writer(writer): inside an object they would bypass the "
                         "key/value buffers (unsorted or misplaced output)" % sorted(map(repr, og))[:3], site_of(t.sp))
     chk.floor("R2", n_w, 30, "write sites in the formatter")
@@ -285,9 +298,23 @@ def r6_strings(chk, prog):
         ok = bool(arg) and all(o.kind == "param" and o.key[1] == "fragment" and not o.fields for o in arg)
     chk.require(ok, "R6", f, "normalises-whole-fragment", "write_string_fragment does not apply nfc() to the whole fragment")
     # no write in the function body itself that takes its data from the fragment without nfc
+    # (accepted fast path: `if fragment.is_ascii() { write_all(fragment.as_bytes()) }` — ASCII is its own NFC)
     direct = []
+    fast = []
+    asc = []
+    for bb, t in ctx.calls("core::str::<impl str>::is_ascii"):
+        og = ctx.origins.of_operand(t.args[0])
+        if og and all(o.kind == "param" and o.key[1] == "fragment" and not o.fields for o in og):
+            asc.extend(ctx.track_call(bb).pos_edges(0))
     for bb, t in ctx.calls(*IOW):
-        direct.append(bb)
+        data = ctx.origins.of_operand(t.args[1]) if len(t.args) > 1 else set()
+        whole = bool(data) and all(is_call(o, "core::str::<impl str>::as_bytes") and all(
+            x.kind == "param" and x.key[1] == "fragment" and not x.fields
+            for x in ctx.origins.of_operand(o.extra.args[0])) for o in data)
+        if whole and asc and ctx.cfg.witness_path([bb], asc) is None:
+            fast.append(bb)
+        else:
+            direct.append(bb)
     chk.require(not direct, "R6", f, "no-unnormalised-write",
                 "write_string_fragment writes bytes outside the per-character loop over the NFC iterator (a fast path "
                 "that skips normalisation)", ctx.site(direct[0]) if direct else None)
@@ -295,7 +322,8 @@ def r6_strings(chk, prog):
     its = ctx.calls("core::iter::traits::iterator::Iterator::try_for_each", "core::iter::traits::iterator::Iterator::for_each")
     its = [(bb, t) for bb, t in its if any(is_call(o, NFC) for o in deep_origins(ctx, t.args[0], 3))]
     rets = ctx.origins.of_local(0)
-    chk.require(len(its) == 1 and all(o.kind == "call" and o.key[0] == its[0][0] for o in rets) and bool(rets), "R6", f,
+    chk.require(len(its) == 1 and all(o.kind == "call" and (o.key[0] == its[0][0] or o.key[0] in fast) for o in rets)
+                and any(o.kind == "call" and o.key[0] == its[0][0] for o in rets), "R6", f,
                 "result-is-the-nfc-loop", "the result of write_string_fragment is not the result of iterating the NFC characters: %s" % sorted(map(repr, rets)))
     clo = ctx_of(prog, F + "write_string_fragment::{closure#0}")
     if clo is None:
